@@ -119,6 +119,26 @@ func judgeDest(path string, orig []byte, L int) error {
 	return nil
 }
 
+// sharedLeaf finds two files holding the same bytes in the same leaf position (=> the same leaf blob);
+// it returns (-1,-1) when there is none, else the index of the later file in Others as second result
+// (the first is -1 for the target or an index in Others)
+func sharedLeaf(c dlCase) (int, int) {
+	L := int(c.Target.Obj.Leaf)
+	seen := map[string]int{}
+	files := append([]dlFile{c.Target}, c.Others...)
+	for fi, f := range files {
+		data := f.Obj.bytes()
+		for lo := 0; lo < len(data); lo += L {
+			k := fmt.Sprintf("%d/%x", lo, data[lo:min(lo+L, len(data))])
+			if prev, dup := seen[k]; dup && prev != fi {
+				return prev - 1, fi - 1
+			}
+			seen[k] = fi
+		}
+	}
+	return -1, -1
+}
+
 func (c dlCase) tree() hx.Tree {
 	t := hx.Tree{c.Target.Name: c.Target.Obj.bytes()}
 	for _, f := range c.Others {
@@ -174,16 +194,8 @@ func runDownload(c dlCase, record bool) error {
 		return err
 	}
 	// the files of the bundle must not share blobs, so exactly one file is affected
-	seen := map[string]string{}
-	for _, name := range sortedKeys(tree) {
-		data := tree[name]
-		for lo := 0; lo < len(data); lo += int(L) {
-			k := fmt.Sprintf("%d/%x", lo, data[lo:min(lo+int(L), len(data))])
-			if prev, dup := seen[k]; dup && prev != name {
-				return fmt.Errorf("harness: files %q and %q share a leaf", prev, name)
-			}
-			seen[k] = name
-		}
+	if a, b := sharedLeaf(c); b >= 0 {
+		return fmt.Errorf("harness: files %d and %d share a leaf", a+1, b+1)
 	}
 	d, err := apply(c.Corr, st, ost)
 	if err != nil {
@@ -308,9 +320,14 @@ func drawDlCase(t *rapid.T) dlCase {
 		seeds[o.Seed] = true
 		c.Others = append(c.Others, dlFile{Name: []string{"a/f0", "n/f1", "q q/f2"}[i], Obj: o})
 	}
-	if c.Target.Obj.Kind != 0 {
-		// zero / periodic targets could share a leaf with nothing else: others are random. fine.
-		_ = c
+	// exactly one file may be affected by the corruption: no two files may share a leaf blob (tiny last
+	// leaves of random bytes do collide); bump the seed of the later file until they do not
+	for tries := 0; tries < 200; tries++ {
+		a, b := sharedLeaf(c)
+		if a < 0 {
+			break
+		}
+		c.Others[b].Obj.Seed += 0x9E3779B97F4A7C15
 	}
 	c.Corr = drawCorr(t, c.Target.Obj, c.Others[0].Obj, true)
 	c.Styles = rapid.SampledFrom([][]string{{"publish"}, {"publishfile"}, {"publish", "publishfile"}}).Draw(t, "styles")
